@@ -433,6 +433,30 @@ def mon_c06(ex, info, col):
                                 continue
                             wpn = sa["components"][cn][1]
                             if wpn is None:
+                                # the (flat, single-task) component is nowhere although an assigned workplace has room for it and a FREE machine this
+                                # worker can operate: it could be carried in and the pair could start (room and free resources only shrink during a step,
+                                # so what is true after the allocation was true at the task's turn)
+                                if _shape(info, cn) != "flat" or ws or fs:
+                                    continue
+                                size = info.comps[cn].get("space")
+                                size = 1.0 if size is None else size
+                                for wp2 in sorted(info.wp):
+                                    if tn not in info.wp_targets[wp2]:
+                                        continue
+                                    cap = info.wp[wp2].get("cap")
+                                    cap = 1.0 if cap is None else (float("inf") if cap == "inf" else cap)
+                                    used = sum((1.0 if info.comps[c].get("space") is None else info.comps[c]["space"]) for c in _top_most(info, sa["workplaces"].get(wp2, [])))
+                                    if not cap - used > size - 1e-8:
+                                        continue
+                                    for f in info.wp_facilities.get(wp2, []):
+                                        fst, fa = sa["facilities"][f]
+                                        if fst != S.R_FREE or fa or res_absent(ex, info, f, t):
+                                            continue
+                                        if info.facility_static_ok(f, tn) is not None or not info.can_operate(w, f):
+                                            continue
+                                        col.checks["c06.idle-pair-unplaced"] += 1
+                                        out.append(V("C06", "C06:worker-facility-pair-FREE-while-the-component-could-be-carried-in", ex,
+                                                     {"t": t, "worker": w, "facility": f, "task": tn, "component": cn, "workplace": wp2, "free_space": cap - used, "size": size}))
                                 continue
                             if any(info.is_solo(x) for x in ws) or any(info.is_solo(x) for x in fs):
                                 continue
